@@ -672,6 +672,19 @@ func (f *wtFam) finish(w *World, res *Result) {
 			big := sc.sizeClass(idx)
 			l14.add("one-frame-per-message", cls+"/"+big, fmt.Sprintf("wire bytes differ from one Engine.IO frame per message: %d messages written, the wire decodes to %d frames; first difference at message %d (%s, %d bytes, write buffer %d); wire %d bytes, expected %d", len(f.written), len(dec), idx, path, ln, sc.effWriteBuf(), len(wire), len(want)))
 		}
+		// C13 when the writer's stream failed: whatever the peer gets to read as a complete message is, in order, one of
+		// the messages written - never something that was not written as one message
+		if sc.WFailAt > 0 {
+			for i, g := range f.got {
+				if g.Err != "" {
+					break
+				}
+				if i >= len(f.written) || g.Binary != f.written[i].Binary || !bytes.Equal(g.Data, f.written[i].Data) {
+					l13.add("round-trip", "after-write-fault", fmt.Sprintf("the writer's stream failed after %d bytes; the peer then read message %d (binary=%v, %d bytes) which was never written as one message", sc.WFailAt-1, i, g.Binary, len(g.Data)))
+					break
+				}
+			}
+		}
 		// C13: the peer reads exactly the written messages
 		if len(f.wErr) == 0 {
 			n := len(f.got)
@@ -948,7 +961,7 @@ func GenWT(prop string, seed uint64, thorough bool) *Scenario {
 					ws.WriterSrv = false
 				}
 			}
-		case prop == "C14" && g.p(0.2):
+		case (prop == "C14" && g.p(0.2)) || (prop == "C13" && g.p(0.12)):
 			// the writer's stream fails somewhere inside the frames (enumerated by the run index), later writes follow
 			total := 0
 			for _, m := range ws.Msgs {
